@@ -133,6 +133,13 @@ void harness_history(void)
 	CHECK(view_matches_daemon(view_of(&B, 'b')), "C01.replica_equals_the_element_set");
 	dead_peer = 0;
 	cJSON_Delete(remy); cJSON_Delete(addx2); cJSON_Delete(fc); cJSON_Delete(fb2); cJSON_Delete(unf);
+#elif HIST == 6
+	/* a peer's own fetch reports its own elements like anybody else's: A fetches, then adds and changes x itself */
+	{ scn_build_begin(); cJSON *fa = mkreq("fetch", 12, fetch_params("a")); scn_build_end();
+	  __CPROVER_assume(ok(&A, fa) && ok(&B, fb) && ok(&A, addx) && ok(&A, chgx)); }
+	CHECK(count_events(&A, 'a', "x") == 1 && count_events(&A, 'c', "x") == 1, "C01.own_fetch_reports_own_elements");
+	CHECK(view_matches_daemon(view_of(&A, 'a')) && view_matches_daemon(view_of(&B, 'b')), "C01.replica_equals_the_element_set");
+	cJSON_Delete(addy); cJSON_Delete(remx); cJSON_Delete(remy); cJSON_Delete(addx2); cJSON_Delete(fc); cJSON_Delete(fb2); cJSON_Delete(unf); cJSON_Delete(chgy);
 #endif
 	dead_peer = 0;
 	free_peer_resources(&B);
